@@ -3,6 +3,8 @@
 -/
 import Xc.Lemmas.Api
 import Xc.Lemmas.Fix
+import Xc.Lemmas.Scrypt
+import Xc.Lemmas.Sunmd5
 import Xc.Thm.C18
 namespace Xc.C01
 open Xc
@@ -24,7 +26,7 @@ For a method `m`, `C01_m_fix` is the authentication round trip at the level of t
 whatever setting `s` produced `H`, hashing the same phrase with `H` as the setting reproduces `H`.
 `C01_m_hashpart` is the second clause: `H` splits as `S ++ digestText`, and `S ++ t` gives `H` for EVERY text `t`
 (so the hash portion of a stored hash has no influence, and neither has anything after it).
-All of it holds for arbitrary digest functions `D`.  Methods not listed here (sunmd5, scrypt, gost-yescrypt) have no such theorem yet: for them the clause rests on the oracle of checks/c01.py. -/
+All of it holds for arbitrary digest functions `D`.  The method not listed here (gost-yescrypt) have no such theorem yet: for them the clause rests on the oracle of checks/c01.py. -/
 
 theorem C01_md5crypt_fix (D : Digests) (p s H : Bytes) (h : cryptMd5 D p s = .ok H) : cryptMd5 D p H = .ok H := by
   obtain ⟨salt, e, f⟩ := cryptMd5_refeed h
@@ -130,6 +132,14 @@ theorem C01_yescrypt_hashpart (D : Digests) (p s H : Bytes) (h : cryptYescrypt D
   simp only [List.append_assoc, List.singleton_append]
   rw [this, e]
 
+/-- scrypt (`$7$`): the kept part of the setting consists of salt characters only, so `verify_salt` accepts the result -/
+theorem C01_scrypt_fix (D : Digests) (p s H : Bytes) (h : cryptScrypt D p s = .ok H) : cryptScrypt D p H = .ok H :=
+  cryptScrypt_fix D p s H h
+
+/-- sunmd5: every spelling of the salt's end (`salt`, `salt$`, `salt$$`, `salt$x…`) is reproduced by the result -/
+theorem C01_sunmd5_fix (D : Digests) (p s H : Bytes) (h : cryptSunmd5 D p s = .ok H) : cryptSunmd5 D p H = .ok H :=
+  cryptSunmd5_fix D p s H h
+
 /-- non-vacuity: concrete settings meet the hypotheses (kernel-evaluated with the executable digests abstracted away) -/
 example (D : Digests) : ∃ H, cryptMd5 D [112, 119] [36, 49, 36, 115, 97, 108, 116] = .ok H := ⟨_, rfl⟩
 example (D : Digests) : ∃ H, cryptDes D [112, 119] [97, 98] = .ok H := ⟨_, rfl⟩
@@ -230,7 +240,7 @@ theorem tag_facts : C18.tagOf .md5crypt = Gen.md5_salt_prefix ∧ C18.tagOf .sha
 /-- the methods for which the front-end round trip is proved (C01_*_fix) -/
 def proved (m : Method) : Bool :=
   match m with
-  | .sunmd5 | .scrypt | .gost_yescrypt => false
+  | .gost_yescrypt => false
   | _ => true
 
 /-- **C01, both clauses, at the level of the API** (`do_crypt`: length check, character filter, dispatch, method):
@@ -280,6 +290,19 @@ theorem C01_roundtrip (cfg : Config) (hT : C18.TableOk cfg.table = true) (D : Di
       | (rw [he] at rtag; have := t13 _ rtag.symm; simp at this; done)
       | (simp [cryptBig, cryptDes, parseDesSalt, cat, asciiToBin] at h; done)
   cases hc : r.crypt <;> rw [hc] at h hpr rtag <;> simp only [cryptMethod, proved] at h hpr ⊢ <;> try (cases hpr; done)
+  case scrypt =>
+    have hne : r.pfx ≠ [] := by rw [rtag]; decide
+    have hfix := C01_scrypt_fix D p s H h
+    unfold cryptScrypt at h
+    split at h; · cases h
+    unfold cryptYescryptCore at h
+    split at h; · cases h
+    rename_i out hout
+    cases h
+    obtain ⟨k, dig, hk1, hk2, e, _, _⟩ := yescryptR_refeed hout
+    refine ⟨redispatch cfg.table hT s H r hr (Or.inl ⟨hne, ?_⟩), hfix⟩
+    have h3 : (C18.tagOf .scrypt).length = 3 := by decide
+    rw [e]; exact prefix_take_append _ k (spre hne) (by rw [rtag, h3]; omega)
   case yescrypt =>
     have hne : r.pfx ≠ [] := by rw [rtag]; decide
     have hfix := C01_yescrypt_fix D p s H h
@@ -326,6 +349,18 @@ theorem C01_roundtrip (cfg : Config) (hT : C18.TableOk cfg.table = true) (D : Di
     obtain ⟨P, e, f⟩ := cryptSha1_refeed h
     refine ⟨redispatch cfg.table hT s H r hr (Or.inl ⟨hne, ?_⟩), C01_sha1crypt_fix D p s H h⟩
     rw [e, rtag]; simp only [List.append_assoc]; exact t4.trans (List.prefix_append _ _)
+  case sunmd5 =>
+    have hne : r.pfx ≠ [] := by rw [rtag]; decide
+    have hfix := C01_sunmd5_fix D p s H h
+    unfold cryptSunmd5 at h
+    split at h; · cases h
+    rename_i P hP
+    simp only [Except.ok.injEq] at h
+    obtain ⟨h5', hl, _⟩ := parseSunmd5_refeed hP (permEncode Gen.perm_sunmd5 (D.sunmd5 p (s.take P.saltlen) P.nrounds)) (permEncode_head _)
+    have h5 : 4 ≤ P.saltlen := by omega
+    refine ⟨redispatch cfg.table hT s H r hr (Or.inl ⟨hne, ?_⟩), hfix⟩
+    have h4 : (C18.tagOf .sunmd5).length = 4 := by decide
+    rw [← h, List.append_assoc]; exact prefix_take_append _ P.saltlen (spre hne) (by rw [rtag, h4]; exact h5)
   case md5crypt =>
     have hne : r.pfx ≠ [] := by rw [rtag]; decide
     obtain ⟨salt, e, f⟩ := cryptMd5_refeed h
